@@ -177,7 +177,7 @@ FaultCases ==
        ELSE <<>>)
   \* a reply that arrives one second before / after the per-packet timeout, in every exchange of every operation
   \o SetSeq({[k |-> x[3], op |-> x[1], hs |-> [connect |-> "ok"], e |-> x[2], p |-> 1, kind |-> "", to |-> 15] :
-              x \in {y \in (1..Len(FOps)) \X (1..5) \X {"ontime", "late"} : y[2] <= Len(FOps[y[1]].frames)}})
+              x \in {y \in (1..Len(FOps)) \X (1..5) \X {"ontime", "ontimesplit", "late"} : y[2] <= Len(FOps[y[1]].frames)}})
 FaultScenario(x) ==
   LET op == FOps[x.op]
       setup == [i \in 1..Len(op.pre) |-> [op |-> op.pre[i], token |-> <<97>>, amount |-> <<>>]]
@@ -187,15 +187,15 @@ FaultScenario(x) ==
                  \o << [o |-> "ok", status |-> [amount |-> <<1>>], uid |-> <<1, 2, 3, 4>>, fault |-> [pos |-> x.p, kind |-> x.kind]] >>
                  \o [i \in 1..(n + 3) |-> OkPlan]
             ELSE IF x.k = "nocollapse" THEN << [o |-> "abort", code |-> 108, delay_ms |-> 1000 * x.to] >>
-            ELSE IF x.k \in {"ontime", "late"}
+            ELSE IF x.k \in {"ontime", "ontimesplit", "late"}
             THEN LET limit == IF op.name = "read_card" THEN 1000 * (x.to + Rcm) ELSE 1000 * Ppt IN
                  [i \in 1..Len(op.pre) |-> OkPlan] \o [i \in 1..(x.e - 1) |-> OkPlan]
                  \o << [o |-> "ok", status |-> [amount |-> <<1>>], uid |-> <<1, 2, 3, 4>>,
-                         delay_ms |-> IF x.k = "ontime" THEN limit - 1000 ELSE limit + 1000] >>
+                         delay_ms |-> IF x.k = "late" THEN limit + 1000 ELSE limit - 1000, split |-> x.k = "ontimesplit"] >>
                  \o [i \in 1..(n + 3) |-> OkPlan]
             ELSE [i \in 1..(Len(op.pre) + n + 3) |-> OkPlan] IN
   [config |-> [BaseCfg EXCEPT !.terminal_id = op.tid, !.read_card_timeout = x.to],
-   tag |-> IF x.k \in {"nocollapse", "ontime", "late"} THEN x.k ELSE "",
+   tag |-> IF x.k \in {"nocollapse", "ontime", "late"} THEN x.k ELSE IF x.k = "ontimesplit" THEN "ontime" ELSE "",
    start |-> IF x.k = "hs" THEN "disconnected" ELSE "connected",
    term |-> [next_receipt |-> 1],
    calls |-> setup \o << [op |-> op.name, token |-> <<97>>, amount |-> <<1>>] >>
